@@ -164,7 +164,13 @@ def main(argv):
                         stats["hang_agree"] += 1
                     else:
                         # the model terminates: rule out a slow machine before calling it a disagreement
-                        ist2, iobs2 = core._impl_worker((flavor, case, 60))
+                        # (at most a handful of such retries per run: a change that makes the engine hang on
+                        #  many inputs must not turn a two-minute check into an hour)
+                        if stats["hang_retries"] < 5:
+                            stats["hang_retries"] += 1
+                            ist2, iobs2 = core._impl_worker((flavor, case, 40))
+                        else:
+                            ist2, iobs2 = "hang", None
                         if ist2 == "ok":
                             stats["slow_cases_retried"] += 1
                             d = modelio.diff_obs(iobs2, mres[1][:len(iobs2)], flavor) if mres[0] == "ok" and oracles.first_illegal(case, iobs2) is None else None
